@@ -61,6 +61,23 @@ TRUSTED = ['IO/NatSort.v natural_key / lex_cmp / sort_by (hand model of re.split
            'ordering skeleton); py/genfrag_C20.py shape recognition; c20_worker.needs_sanitising / strip_zeros as the '
            'specification of "needs sanitising" / "ties under natural order"']
 
+def _no_aslr():
+    import platform
+    import shutil
+    exe = shutil.which('setarch')
+    if not exe:
+        return []
+    cmd = [exe, platform.machine(), '-R']
+    try:
+        if subprocess.run(cmd + ['true'], capture_output=True, timeout=20).returncode == 0:
+            return cmd
+    except Exception:
+        pass
+    return []
+
+
+NO_ASLR = _no_aslr()
+BATCH_PREFIX = {}    # design key -> the designs built before it (and itself) in its worker process
 EXPORTERS = ['output_to_verilog', 'output_verilog_testbench', 'print_vcd', 'print_trace', 'simulation_trace']
 KINDCODE = {'Input': 0, 'Output': 1, 'Register': 2, 'Const': 3}
 
@@ -162,7 +179,7 @@ def tie_names(ctx):
     CH = 100
     for k in range(0, len(names), CH):
         chunk = names[k:k + CH]
-        exprs.append('valid_case %s' % clist(codes(x) for x in chunk))
+        exprs.append('valid_case %s %s' % (codes('_p_'), clist(codes(x) for x in chunk)))
         meta.append(('valid', chunk))
     # sorting lists (with duplicates removed: a dict / set of names has none) and sanitizer runs
     nlists = 40 if ctx.tier == 'quick' else 400
@@ -219,9 +236,10 @@ def tie_names(ctx):
                 spec = not W.needs_sanitising(nm)
                 ctx.case(('valid', nm), nontrivial=True)
                 ctx.count('identifier', 'valid' if real else 'needs sanitising')
-                if real != spec and not nm.endswith('\n'):
-                    ctx.spec_violation('sanitizer-validity', '_VerilogSanitizer.is_valid_str(%r) = %s but the Verilog '
-                                       'identifier rule says %s' % (nm, real, spec), {'name': nm})
+                if real and spec is False and not nm.endswith('\n'):
+                    # one-way: a name that is not a legal Verilog identifier must be renamed (renaming more is harmless)
+                    ctx.spec_violation('sanitizer-validity', '_VerilogSanitizer.is_valid_str(%r) is true but %r is not a '
+                                       'legal Verilog identifier' % (nm, nm), {'name': nm})
                 if real != bool(mv):
                     ctx.model_mismatch('is_valid_str(%r): model %s real %s' % (nm, mv, real), {'name': nm})
         elif kind in ('natsort', 'tracesort'):
@@ -289,7 +307,9 @@ def run_workers(ctx, mode, specs, configs, batch, tag):
     def one(job):
         (hs, noise), jf, of = job
         env = dict(os.environ, PYTHONHASHSEED=str(hs))
-        p = subprocess.run([sys.executable, os.path.join(os.path.dirname(HERE), 'c20_worker.py'), jf, of],
+        # address-space randomisation off: object addresses (hence id()-hashed set orders) become a
+        # function of (hash seed, allocation noise) alone, so a configuration replays exactly
+        p = subprocess.run(NO_ASLR + [sys.executable, os.path.join(os.path.dirname(HERE), 'c20_worker.py'), jf, of],
                            env=env, capture_output=True, text=True, timeout=3000)
         if p.returncode != 0:
             raise RuntimeError('worker failed (%s): %s' % (jf, p.stderr[-1500:]))
@@ -299,6 +319,9 @@ def run_workers(ctx, mode, specs, configs, batch, tag):
         os.remove(of)
         return (hs, noise), out
 
+    for b in range(0, len(specs), batch):
+        for j, sp in enumerate(specs[b:b + batch]):
+            BATCH_PREFIX[sp['key']] = specs[b:b + j + 1]
     res = collections.defaultdict(dict)
     with concurrent.futures.ThreadPoolExecutor(max_workers=12) as ex:
         for cfg, out in ex.map(one, jobs):
@@ -342,7 +365,10 @@ def explain_difference(t1, t2, names, n_invalid, shared_enable):
     tie_names_ = {nm for f in fam.values() if len(f) > 1 for nm in f}
 
     def mask(s):
-        return TMP_RE.sub('_tmp_#', s)
+        # numbering masked; lines that list several identifiers (module header, instantiation) are
+        # compared as multisets of their items
+        s = TMP_RE.sub('_tmp_#', s)
+        return ' '.join(sorted(re.split(r'[(),;\s]+', s))) if ', ' in s else s
 
     if sorted(map(mask, l1)) != sorted(map(mask, l2)):
         return None
@@ -463,15 +489,16 @@ def project_verilog(text, n_in, n_out, n_const, add_reset):
 def verilog_model_expr(r, add_reset):
     ws = clist('(%s, %d)' % (codes(nm), KINDCODE.get(k, 4)) for nm, k in zip(r['set_order'], r['kinds']))
     nets = []
-    for op, dest, memid, we_str, we_name in r['nets']:
+    for op, dest, memid, we_str, we_name, addr_str, data_str in r['nets']:
         if op == '@':
-            nets.append('(%s, true, %d, [%s])' % (codes(we_str), 1000 + memid, codes(we_name)))
+            nets.append('([%s; %s; %s], true, %d, [%s])' % (codes(we_str), codes(addr_str), codes(data_str),
+                                                          1000 + memid, codes(we_name)))
         elif op == 'm':
-            nets.append('(%s, false, %d, [])' % (codes(dest), 2000 + memid))
+            nets.append('([%s], false, %d, [])' % (codes(dest), 2000 + memid))
         elif op == 'r':
-            nets.append('(%s, false, 1, [])' % codes(dest))
+            nets.append('([%s], false, 1, [])' % codes(dest))
         else:
-            nets.append('(%s, false, 0, [])' % codes(dest))
+            nets.append('([%s], false, 0, [])' % codes(dest))
     memids = sorted({n[2] for n in r['nets'] if n[0] in 'm@'})
     wsecs = '[[0]; [1]; [0]; [1]; [2]; [3; 4]; [3]]'
     nsecs = [0] + ([1, 1] if add_reset else [1])
@@ -619,14 +646,15 @@ def search_exports(ctx, exp_res, textdir, specs):
                     break
                 why_all |= why
             d1 = [l for l in t1.split('\n')]
-            rep = {'design': spec, 'seed': ctx.seed, 'exporter': ex,
+            rep = {'design': spec, 'batch_prefix': BATCH_PREFIX.get(key, [spec]), 'seed': ctx.seed, 'exporter': ex,
                    'config_a': list(byhash[hashes[0]]), 'config_b': list(byhash[unexplained or hashes[1]]),
                    'sha_a': hashes[0], 'sha_b': unexplained or hashes[1], 'distinct_texts': len(byhash),
                    'configs': len(runs), 'names_needing_sanitising': r0['n_invalid'],
                    'leading_zero_families': sorted(k for k, v in fam.items() if v > 1)[:5],
                    'first_differing_lines': _first_diff(t1, load_text(textdir, key, ex, unexplained or hashes[1])),
-                   'how': 'PYTHONPATH=/repo PYTHONHASHSEED=<config[0]> python py/c20_worker.py job.json out.json with '
-                          'job = {"mode": "export", "noise": <config[1]>, "designs": [<design>], "textdir": ...}'}
+                   'how': 'setarch -R env PYTHONPATH=/repo PYTHONHASHSEED=<config[0]> python py/c20_worker.py job.json out.json '
+                          'with job = {"mode": "export", "noise": <config[1]>, "designs": <batch_prefix>, "textdir": ...}; '
+                          'or ./check C20 --replay <this file>'}
             if unexplained is not None:
                 ctx.spec_violation('nondeterministic:%s' % ex,
                                    '%s text of design %s differs between schedules %s and %s (%d distinct texts over %d '
@@ -683,7 +711,8 @@ def search_passes(ctx, res, specs):
                 ctx.spec_violation('pass-behaviour-differs:%s' % pname,
                                    'Output traces after %s on design %s differ between schedules %s and %s'
                                    % (pname, key, list(cfgs[0]), list(cfgs[1])),
-                                   {'design': spec, 'pipeline': pname, 'config_a': list(cfgs[0]), 'config_b': list(cfgs[1]),
+                                   {'design': spec, 'batch_prefix': BATCH_PREFIX.get(key, [spec]), 'pipeline': pname,
+                                    'config_a': list(cfgs[0]), 'config_b': list(cfgs[1]),
                                     'outputs_a': json.loads(list(outs)[0]), 'outputs_b': json.loads(list(outs)[1])})
 
 
@@ -702,7 +731,8 @@ def search_readonly(ctx, res, specs):
                          sample={'design': spec, 'call': c['call'], 'config': list(cfg), 'fingerprint_same': c.get('fp_same'),
                                  'behaviour_same': c.get('beh_same')} if key.endswith('0') and c['call'] == 'output_to_firrtl' and cfg == sorted(res)[0] else None)
                 ctx.count('readonly_calls', c['call'])
-                rep = {'design': spec, 'config': list(cfg), 'call': c['call'], 'detail': c}
+                rep = {'design': spec, 'batch_prefix': BATCH_PREFIX.get(key, [spec]), 'config': list(cfg),
+                       'call': c['call'], 'detail': c}
                 if 'error' in c:
                     ctx.count('readonly_call_errors', '%s: %s' % (c['call'], c['error'][:60]))
                 if 'post_error' in c:
@@ -758,12 +788,15 @@ def replay(ctx, data):
     if not isinstance(spec, dict):
         return run(ctx)
     cfgs = [tuple(rep[k]) for k in ('config_a', 'config_b', 'config') if k in rep]
+    # the schedule a configuration produces depends on everything allocated before in the same worker
+    # process, so the whole batch prefix is rebuilt
+    batch = rep.get('batch_prefix') or [spec]
     if 'pipeline' in rep:
-        res, _ = run_workers(ctx, 'passes', [spec], cfgs, batch=1, tag='replay')
+        res, _ = run_workers(ctx, 'passes', batch, cfgs, batch=len(batch), tag='replay')
         search_passes(ctx, res, [spec])
     elif 'call' in rep:
-        res, _ = run_workers(ctx, 'readonly', [spec], cfgs, batch=1, tag='replay')
+        res, _ = run_workers(ctx, 'readonly', batch, cfgs, batch=len(batch), tag='replay')
         search_readonly(ctx, res, [spec])
     else:
-        res, textdir = run_workers(ctx, 'export', [spec], cfgs, batch=1, tag='replay')
+        res, textdir = run_workers(ctx, 'export', batch, cfgs, batch=len(batch), tag='replay')
         search_exports(ctx, res, textdir, [spec])
